@@ -7,8 +7,8 @@ import os
 import shutil
 import stat as _stat
 
-MODES = [0o644, 0o600, 0o755, 0o444, 0o700, 0o640]
-DIRMODES = [0o755, 0o700, 0o750, 0o555]
+MODES = [0o644, 0o600, 0o755, 0o444, 0o700, 0o640, 0o4755, 0o2750, 0o1644]      # incl. setuid / setgid / sticky
+DIRMODES = [0o755, 0o700, 0o750, 0o555, 0o2775, 0o1777]     # index 3: no owner write (known finding); 4, 5: setgid / sticky directories
 CONTENTS = [b"", b"a", b"b", b"ab", b"ba"]
 ROOT = "/vfs"
 
